@@ -119,7 +119,7 @@ def stacks(tier):
 
 
 def shards(tier):
-    return [("stacks", p, d) for p in range(len(POSITIONS)) for d in range(len(DOCS))] + [("files", 0), ("illegal", 0), ("protocol", 0)]
+    return [("stacks", p, d) for p in range(len(POSITIONS)) for d in range(len(DOCS))] + [("files", 0), ("illegal", 0), ("protocol", 0), ("reuse", 0)] + [("bigfile", e) for e in BIG_ENCODINGS]
 
 
 def fresh(idxs):
@@ -422,6 +422,77 @@ def _rebuild(kind, result):
     return out
 
 
+BIG_ENCODINGS = ["utf-8", "gbk", "utf-16", "latin-1"]
+
+
+def check_reuse(acc):
+    """The same middleware instances (a user's stack list) over several calls, including calls that fail half way:
+    every call must equal the call with fresh instances."""
+    seqs = []
+    for idxs in itertools.product(range(len(POOL)), repeat=2):
+        seqs.append(idxs)
+    for idxs in seqs:
+        for position in ("parse_stack", "unparse_stack"):
+            insts = fresh(idxs)
+            for di in (0, 1, 4, 1, 0):
+                text = DOCS[di]
+                case = {"reuse": [POOL[i][0] for i in idxs], "position": position, "doc": di}
+                acc.trace(2)
+                acc.case(nontrivial_key=("reuse", idxs, position, di))
+                if position == "parse_stack":
+                    got = cmp_lib(attempt(lambda: bibtexparser.parse_string(text, parse_stack=insts)))
+                    exp = cmp_lib(attempt(lambda: bibtexparser.parse_string(text, parse_stack=fresh(idxs))))
+                else:
+                    got = attempt(lambda: bibtexparser.write_string(bibtexparser.parse_string(text), unparse_stack=insts))
+                    exp = attempt(lambda: bibtexparser.write_string(bibtexparser.parse_string(text), unparse_stack=fresh(idxs)))
+                acc.step(("reuse", idxs, position), di, got if got[0] == "raised" else "ok")
+                if got != exp:
+                    acc.violation(
+                        {"oracle": "reused_instances_equal_fresh_instances", "position": position},
+                        {"case": case, "observed": repr(got)[:500], "expected": repr(exp)[:500]},
+                    )
+                    break
+    # a block middleware instance that failed (non-block result after some blocks were already collected) and is used again
+    for kind in KINDS:
+        for bad in ("[b,42]", "42", "generator"):
+            inst = Proto(kind, bad)
+            r1 = attempt(lambda: inst.transform(Splitter(PROTO_DOC).split()))
+            inst.result = RESULTS["block"][0]
+            _N[0] = 0
+            got = attempt(lambda: [canon(b) for b in inst.transform(Splitter(PROTO_DOC).split()).blocks])
+            exp = attempt(lambda: [canon(b) for b in Proto(kind, "block").transform(Splitter(PROTO_DOC).split()).blocks])
+            acc.trace(2)
+            acc.case(nontrivial_key=("reuse-after-failure", kind, bad))
+            if got != exp or r1 != ("raised", "TypeError"):
+                acc.violation(
+                    {"oracle": "instance_usable_after_a_failed_call", "first_result": bad},
+                    {"case": {"reuse_after_failure": kind, "first_result": bad}, "observed": repr(got)[:400], "expected": repr(exp)[:400]},
+                )
+
+
+def check_bigfile(enc, acc, tmpdir):
+    """parse_file on large files in multi-byte encodings: every alignment of multi-byte characters against any internal
+    block size (the text is shifted by 0..5 one-byte characters), sizes around 64 KiB .. 1 MiB."""
+    body = {"utf-8": "凯é撒ü", "gbk": "凯撒测试", "utf-16": "凯é撒\U0001F600", "latin-1": "éüñ"}[enc]
+    for size in (70_000, 140_000, 1_100_000):
+        for shift in range(6):
+            text = "%" + "x" * shift + "\n@a{k%d, note = {" % shift + body * (size // len(body.encode(enc))) + "}}\n@b{j, t = {" + body + "}}\n"
+            path = os.path.join(tmpdir, "big.bib")
+            with open(path, "wb") as f:
+                f.write(text.encode(enc))
+            case = {"bigfile": enc, "bytes": os.path.getsize(path), "shift": shift}
+            acc.trace(2)
+            acc.case(nontrivial_key=("bigfile", enc, size, shift))
+            got = cmp_lib(attempt(lambda: bibtexparser.parse_file(path, encoding=enc)))
+            exp = cmp_lib(attempt(lambda: bibtexparser.parse_string(text)))
+            acc.step(("bigfile", enc, size), shift, got[0])
+            if got != exp:
+                acc.violation(
+                    {"oracle": "parse_file_equals_parse_string_of_decoded_content", "encoding": enc, "size": "large"},
+                    {"case": case, "observed": repr(got)[:300], "expected": repr(exp)[:120]},
+                )
+
+
 def run_shard(shard, tier, acc):
     with tempfile.TemporaryDirectory(prefix="verif-c20-") as tmpdir:
         if shard[0] == "stacks":
@@ -429,6 +500,10 @@ def run_shard(shard, tier, acc):
             for idxs in stacks(tier):
                 for cname in CONTAINERS:
                     check_stack(pos, di, idxs, cname, acc, tmpdir)
+        elif shard[0] == "reuse":
+            check_reuse(acc)
+        elif shard[0] == "bigfile":
+            check_bigfile(shard[1], acc, tmpdir)
         elif shard[0] == "files":
             check_files(acc, tmpdir)
         elif shard[0] == "illegal":
@@ -443,6 +518,10 @@ def replay(case, acc):
             check_stack(POSITIONS.index(case["position"]), case["doc"], tuple(case["stack_idx"]), case["container"], acc, tmpdir)
         elif "protocol" in case:
             check_protocol(acc)
+        elif "reuse" in case or "reuse_after_failure" in case:
+            check_reuse(acc)
+        elif "bigfile" in case:
+            check_bigfile(case["bigfile"], acc, tmpdir)
         elif "illegal" in case:
             check_illegal(acc, tmpdir)
         else:
